@@ -43,6 +43,7 @@ struct _thpool {
     pthread_cond_t notify;
     m_list_t *threads;              /* Always used behind a mutex */
     m_queue_t *tasks;               /* Always used behind a mutex */
+    size_t active_threads;          /* Number of worker threads that did not leave yet. Always used behind a mutex */
     atomic_uint running_tasks;
     m_thpool_flags flags;           /* Nobody writes this but us during thpool_new. No need to use an atomic */
 };
@@ -92,6 +93,14 @@ static void *thpool_thread(void *thpool) {
         VERIF_POINT(VP_THPOOL_WORKER_TASK_DONE, pool);
     }
     
+    /*
+     * Detached threads cannot be joined: tell whoever is
+     * destroying the pool that we won't touch it anymore.
+     */
+    pool->active_threads--;
+    if (pool->flags & M_THPOOL_DETACHED) {
+        pthread_cond_broadcast(&(pool->notify));
+    }
     pthread_mutex_unlock(&(pool->lock));
     VERIF_POINT(VP_THPOOL_WORKER_EXIT, pool);
     return NULL;
@@ -109,7 +118,16 @@ static int wait_pool(m_thpool_t *pool, thpool_shutdown_t shutdown) {
     ret = pthread_cond_broadcast(&pool->notify) + pthread_mutex_unlock(&pool->lock);
     VERIF_POINT(VP_THPOOL_SHUTDOWN_SET, pool);
     if (ret == 0) {
-        if (!(pool->flags & M_THPOOL_DETACHED)) {
+        if (pool->flags & M_THPOOL_DETACHED) {
+            /* Detached threads cannot be joined: wait until all of them left */
+            ret = pthread_mutex_lock(&pool->lock);
+            if (ret == 0) {
+                while (pool->active_threads > 0) {
+                    pthread_cond_wait(&pool->notify, &pool->lock);
+                }
+                ret = pthread_mutex_unlock(&pool->lock);
+            }
+        } else {
             /* Join all worker threads */
             m_itr_foreach(pool->threads, {
                 pthread_t *th = m_itr_get(m_itr);
@@ -142,6 +160,7 @@ static int add_threads(m_thpool_t *pool, int num) {
         err = pthread_create(th, &tattr, thpool_thread, (void *) pool);
         if (err == 0) {
             m_list_insert(pool->threads, th);
+            pool->active_threads++;
             VERIF_POINT(VP_THPOOL_THREAD_CREATED, pool);
         } else {
             memhook._free(th);
